@@ -575,6 +575,23 @@ func Extremes(target string, thorough bool) Family {
 	}}
 }
 
+// EmptyFiles: a writer that is closed without any written batch.
+func EmptyFiles(targets ...string) Family {
+	return Family{Name: "Z-empty", Gen: func(c *fw.Ctx, emit Emit) {
+		for _, tn := range targets {
+			if !sut.Has(tn) {
+				continue
+			}
+			t := sut.Get(tn)
+			for _, cd := range codecs3 {
+				for _, page := range []int{0, 1} {
+					emit(fmt.Sprintf("%s|p%d|z%d", tn, page, cd), t, nil, nil, page, cd)
+				}
+			}
+		}
+	}}
+}
+
 // ---------------------------------------------------------------- selections
 
 // ForC01 returns the families of C01 (also reused by C02 and C16).
@@ -592,6 +609,7 @@ func ForC01(thorough bool) []Family {
 			Extremes("mini", false),
 			Extremes("person", false),
 			Extremes("flat24", false),
+			EmptyFiles("mini", "person", "flat24", "document"),
 			LongRuns("flat24", []int{8, 9, 16, 17}, false),
 			LongRuns("person", []int{8, 9, 16, 17}, false),
 			StructureExhaustive("person", 2, 2, true, 40),
@@ -630,6 +648,7 @@ func ForC01(thorough bool) []Family {
 		Extremes("person", true),
 		Extremes("flat24", true),
 		Extremes("document", true),
+		EmptyFiles("mini", "person", "flat24", "document", "repetition", "flat3"),
 		StructureExhaustive("reqdeep", 4, 2, true, 0),
 		StructureExhaustive("samename", 4, 2, true, 0),
 		StructureExhaustive("nest3", 6, 2, true, 300),
@@ -676,6 +695,9 @@ func ForC03(thorough bool) []Family {
 			NestedLists("document", []int{0, 1, 2, 3}),
 			NestedLists("repetition", []int{0, 1, 2, 3}),
 			NestedLists("nest3", []int{0, 1, 2, 3}),
+			LongRuns("mini", []int{8, 9, 504, 505, 1000, 1001}, false),
+			LongRuns("flat3", []int{504, 505, 1001}, false),
+			LongRuns("document", []int{8, 9, 505}, false),
 		}
 	}
 	return []Family{
@@ -691,6 +713,10 @@ func ForC03(thorough bool) []Family {
 		NestedLists("document", []int{0, 1, 2, 3, 4, 9}),
 		NestedLists("repetition", []int{0, 1, 2, 3, 4, 9}),
 		NestedLists("nest3", []int{0, 1, 2, 3, 4, 9}),
+		LongRuns("mini", []int{7, 8, 9, 63, 64, 65, 503, 504, 505, 511, 512, 513, 1000, 1024, 4097}, false),
+		LongRuns("flat3", []int{504, 505, 1001, 4097}, false),
+		LongRuns("document", []int{8, 9, 504, 505, 1001}, false),
+		LongRuns("repetition", []int{8, 9, 505}, false),
 	}
 }
 
@@ -755,6 +781,7 @@ func ForC16(thorough bool) []Family {
 			StructureExhaustive("document", 3, 2, true, 40),
 			Extremes("mini", false),
 			Extremes("person", false),
+			EmptyFiles("mini", "person", "document", "flat3"),
 		}
 	}
 	return []Family{
@@ -767,5 +794,6 @@ func ForC16(thorough bool) []Family {
 		Extremes("mini", true),
 		Extremes("person", true),
 		Extremes("flat24", true),
+		EmptyFiles("mini", "person", "document", "flat3"),
 	}
 }
